@@ -967,6 +967,7 @@ def opt_steps_for(p, level="full"):
             out.append(("item", X, C(c)))
         if kinds[c] == "str":
             out.append(("item", X, B("==", C(c), L("x"))))
+            out.append(("item", X, B(">", acc(C(c), "str", "len"), L(1))))
     for c in num:
         if kinds[c] in ("float", "nullable"):
             out.append(("item", X, call(C(c), "notnull")))
@@ -979,7 +980,8 @@ def opt_steps_for(p, level="full"):
     if n0 != n1:
         out += [call(X, "assign", **{n1: E(C(n0)), n0: E(C(n1))}), call(X, "rename", columns=D((n0, n1), (n1, n0)))]
     # element-wise
-    out += [B("+", X, L(1)), B("*", X, L(2)), call(X, "fillna", 0), call(X, "astype", D((n0, "float64"))), call(X, "rename", columns=D((n0, "A"))),
+    out += [B("+", X, L(1)), B("*", X, L(2)), call(X, "fillna", 0), call(X, "astype", D((n0, "float64"))), call(X, "astype", D((n0, "str"))), call(X, "astype", D((n0, "bool"))),
+            call(X, "where", E(call(X, "notnull")), 0), call(X, "rename", columns=D((n0, "A"))),
             call(X, "drop", columns=LS(cols[-1])), call(X, "dropna"), call(X, "where", E(B(">", C(n0), L(3)))), call(X, "isna"), call(X, "clip", 2, 5)]
     # DAG-shaped steps (x has several consumers)
     out += [B("+", C(n0), C(n1)), call(C(n0), "where", E(B(">", C(n1), L(0))), E(B("*", C(n0), L(2)))), ("item", ("cols", X, (n0, cols[-1])), B(">", C(n0), L(3))),
